@@ -116,16 +116,29 @@ def d2(ctx, F):
     ctx.floor("C02.D2.bad-tag-errors", len(errs) + len([c for c in rs.calls() if strip_generics(c.callee) == "core::ops::try_trait::FromResidual::from_residual"]), 4)
 
 
+def tag_format(ctx, F):
+    """the routing tag the topic writes is what the Router parses: the requestor id rendered with plain `Display` (`parse::<K>()` reads
+    decimal) — no radix / padding / debug formatting of the id"""
+    from . import routers
+    cfg, init, me = routers.config(F, "reqrep")
+    b = cfg.body
+    fm = [c for c in b.calls() if strip_generics(c.callee).startswith("core::fmt::rt::Argument::new_") and not c.macros_contain("error") and not c.macros_contain("warn")] if hasattr(b.calls()[0], "macros_contain") else \
+         [c for c in b.calls() if strip_generics(c.callee).startswith("core::fmt::rt::Argument::new_") and not any(m in ("error", "warn", "info", "debug", "trace", "log") or m.startswith("log::") for m in (c.macros or []))]
+    kinds = sorted({strip_generics(c.callee).rsplit("::", 1)[-1] for c in fm})
+    ctx.check(fm and kinds == ["new_display"], "C02.D1.tag-format", "reqrep:tag-format", "the routing tag is the id's plain Display rendering (found %s)" % (kinds or "no formatting call"), (fm or [b])[0].span)
+
+
 def run(ctx):
     F = ctx.facts("quick")
     K.socket_pass_through(ctx, F, "C02.D5")
+    tag_format(ctx, F)
     # "payload and headers intact, exactly once" also depends on the frame codec the router's peers are written through: several frames
     # queued for one peer share a write buffer, so the length prefix must be right at any buffer offset (C05.D2) and both directions
     # must agree on the limit (C05.D3)
     from . import c05
     c05.d2(ctx, F)
     c05.d3(ctx, F)
-    ex, sd, cfg = routers.report(ctx, F, "reqrep", "C02", lambda f: (f.kind in ("K1", "K3", "K9", "K13") and "buffered_err" not in f.key and "local:si" not in f.key and "slot-overwrite:server" not in f.key) or f.kind in ("K4", "K5"))
+    ex, sd, cfg = routers.report(ctx, F, "reqrep", "C02", lambda f: (f.kind in ("K1", "K3", "K9", "K13") and "buffered_err" not in f.key and "local:si" not in f.key and "slot-overwrite:server" not in f.key) or f.kind in ("K4", "K5", "K14"))
     ctx.floor("C02.pollai.persistent-states", len(ex.persistent), 8)
     ctx.ok("C02.pollai", "req/rep router explored exhaustively: %d persistent states, %d (block,state) nodes" % (len(ex.persistent), len(ex.it.nodes)), cfg.body.span)
     routing = ex.h.routing
